@@ -143,6 +143,26 @@ def run(ctx):
         ctx.count((which, str(obss), str(ws)), n > 1 and any(o['idx'] for o in obss))
         dist['batch'] += 1
 
+    # 5. negative positions: the constructors do not reject them (only positions >= length), so the operators and the
+    #    totality theorem (wf_idx bounds positions from above only) must cope with them
+    pool = [-9, -3, -1, 0, 2, 7]
+    dist['negative_positions'] = 0
+    for i in range(ctx.n(40, 400)):
+        kind = rng.choice(fpgen.KINDS)
+        specs = []
+        for _ in range(2):
+            idx = sorted(rng.sample(pool, rng.choice([1, 2, 3, 4])))
+            sp = {'kind': kind, 'bits': 8, 'level': rng.choice([-1, 2])}
+            if kind == 'KBit':
+                sp['idx'] = idx
+            else:
+                sp['cnt'] = {j: rng.choice([1, 2, 5]) for j in idx}
+            specs.append(sp)
+        ops = list(BIT_OPS) if kind == 'KBit' else ['add', 'sub', 'iadd', 'isub', 'radd']
+        for opname in rng.sample(ops, 2):
+            binop_case('neg', specs[0], specs[1], opname)
+            dist['negative_positions'] += 1
+
     for k in cases[:3] + cases[len(cases) // 2:len(cases) // 2 + 2] + cases[-2:]:
         ctx.sample({'case': k[0], 'input_and_implementation_result': payloads[k[0]], 'model_check': k[1][:400]})
     nbad = core.compare_cases(ctx, cases, IMPORTS, 'C11 operators', payloads, model_expr=mexpr,
